@@ -18,7 +18,7 @@ RULE = ("map_to_curve_G1/G2 (and optimized_swu_G1/G2, iso_map_G1/G2) on Hypothes
         "pattern of (re, im) in Fp2, uniform - compared with the RFC 9380 straight-line simplified SWU "
         "(real inversions and square roots) followed by the isogeny as an affine rational map; "
         "sgn0(y') = sgn0(u) on the isogenous curve; hash_to_G1/G2 on generated (message, DST <= 255 bytes, "
-        "hash function from hashlib) compared with the model pipeline and checked on-curve and r*P = O. "
+        "hash function from hashlib; one case in six has a message searched for so that the expand_message_xmd blocks b_0 and b_i start / end with equal or zero bytes) compared with the model pipeline and checked on-curve and r*P = O. "
         "Non-trivial = a map case on the non-square (x2) branch, with an exceptional u or a u with a zero "
         "coordinate, or a pipeline case with DST length in {0, 255}, a non-SHA-256 hash or a message >= 56 "
         "bytes; distinct by input digest")
@@ -30,7 +30,7 @@ TECHNIQUE = ("differential property-based testing (Hypothesis) against a straigh
 _REQ = ["map:G1:branch=x1", "map:G1:branch=x2", "map:G2:branch=x1", "map:G2:branch=x2", "map:G1:exceptional", "map:G1:image=identity",
         "map:G2:exceptional", "map:G2:u_re=0", "map:G2:u_im=0", "map:G2:fq_object_coefficients", "map:G1:sgn0(u)=1", "map:G2:sgn0(u)=1",
         "h2c:G1:dst_len=255", "h2c:G2:dst_len=255", "h2c:G1:dst_len=0", "h2c:G2:dst_len=0",
-        "h2c:G2:hash=sha512", "h2c:G1:hash=sha512"]
+        "h2c:G2:hash=sha512", "h2c:G1:hash=sha512"] + ["h2c:xmd_blocks:" + k for k in h2c.BLOCK_KINDS]
 REQUIRED_LABELS = {"quick": _REQ, "thorough": _REQ}
 HASHES = ("sha256", "sha512", "sha384", "sha224", "sha3_256", "sha3_512", "blake2b", "blake2s", "sha1", "md5")
 
@@ -123,6 +123,8 @@ def o_h2c(ctx, case):
     ctx.label(f"h2c:{g}:hash={hname}")
     if len(msg) >= 56:
         ctx.label(f"h2c:{g}:msg>=56"); nt_ = True
+    if case.get("blocks"):
+        ctx.label(f"h2c:xmd_blocks:{case['blocks']}"); nt_ = True
     if nt_:
         ctx.nontrivial(("h", g, case["msg"], case["dst"], hname))
     ctx.sample(case, f"h2c:{g}:{hname}")
@@ -148,10 +150,20 @@ def s_h2c(g, big):
     dst = st.one_of(st.sampled_from([b"", b"Q", b"QUUX-V01-CS02-with-BLS12381G2_XMD:SHA-256_SSWU_RO_"] +
                                     list(blssig.DST.values()) + [blssig.POP_TAG]),
                     sized_binary((0, 1, 16, 43, 254, 255), 255))
-    return st.fixed_dictionaries({
+    plain = st.fixed_dictionaries({
         "g": st.just(g), "msg": s_msg(300, big=big).map(hx), "dst": dst.map(hx),
         "hash": st.one_of(st.just("sha256"), st.just("sha256"), st.sampled_from(HASHES)),
     })
+
+    def structured(t):
+        # a message for which the blocks of expand_message_xmd stand in a byte relation (b_0 and a b_i that is
+        # XORed with it both start / end with a zero byte, or with the same byte): found by search in the model
+        c, kind = t
+        n = 128 if g == "G1" else 256
+        m = h2c.search_blocks(unhx(c["msg"])[:40], unhx(c["dst"]), n, c["hash"], kind)
+        return dict(c, msg=hx(m), blocks=kind)
+    return st.one_of(plain, plain, plain, plain, plain,
+                     st.tuples(plain, st.sampled_from(h2c.BLOCK_KINDS)).map(structured))
 
 
 def _u_examples(g):
@@ -175,6 +187,9 @@ def t_h2c(ctx, g, shard, n):
                {"g": g, "msg": "00", "dst": hx(b"\xff" * 255), "hash": "sha512"},
                {"g": g, "msg": hx(b"a" * 64), "dst": hx(b"d" * 255), "hash": "sha256"},
                {"g": g, "msg": hx(b"abc"), "dst": "", "hash": "sha512"}]
+        n_ = 128 if g == "G1" else 256
+        ex += [{"g": g, "msg": hx(h2c.search_blocks(b"pinned", d, n_, "sha256", k)), "dst": hx(d), "hash": "sha256",
+                "blocks": k} for k in h2c.BLOCK_KINDS]
     drive(ctx, f"h2c{g}{shard}", s_h2c(g, ctx.tier == "thorough"), lambda c: o_h2c(ctx, c), n, ex)
 
 
